@@ -461,6 +461,71 @@ func c17History(init int, path []int) *core.Finding {
 	return nil
 }
 
+// c17SubFlags: nibble 0..15: a SUBSCRIBE decoded from a frame whose first
+// byte carries that flag nibble; nibble 16: the zero value &Subscribe{}
+// filled through the setters.
+func c17SubFlags(nib int, fs []filtIn) *core.Finding {
+	resetGlobals()
+	build := mq.NewSubscribe()
+	build.SetPacketID(3)
+	for _, f := range fs {
+		build.AddFilters(mkFilter(f))
+	}
+	b, _, err, res := writePacket(build, 0)
+	if err != nil || res.Panic != "" || len(b) == 0 {
+		return nil
+	}
+	b[0] = 0x80 | byte(nib)
+	q, rerr, res := readPacket(bytes.NewReader(b), stepBudget(len(b)))
+	p, ok := q.(*mq.Subscribe)
+	if rerr != nil || res.Panic != "" || res.Budget || !ok {
+		return nil // whether such a frame is accepted is not C17's business
+	}
+	zero := &mq.Subscribe{}
+	zero.SetPacketID(3)
+	for _, f := range fs {
+		zero.AddFilters(mkFilter(f))
+	}
+	for tag, pk := range map[string]*mq.Subscribe{fmt.Sprintf("subscribe.decoded-with-flags-%x", nib): p, "subscribe.zero-value": zero} {
+		var wf *mq.Malformed
+		var s string
+		pk := pk
+		res := guarded(0, func() { wf = pk.WellFormed(); s = pk.String() })
+		if res.Panic != "" {
+			return nil // C19's business
+		}
+		if f := judge(tag, wf, s, subPredicate(subIn{-1, fs})); f != nil {
+			f.Detail = fmt.Sprintf("filters %+v: %s", fs, f.Detail)
+			return f
+		}
+	}
+	return nil
+}
+
+// c17ZeroPublish: the zero value &Publish{} filled through the setters.
+func c17ZeroPublish(topic bool, qos uint8, pid uint16) *core.Finding {
+	resetGlobals()
+	p := &mq.Publish{}
+	if topic {
+		p.SetTopicName("a/b")
+	}
+	p.SetQoS(qos)
+	if pid != 0 {
+		p.SetPacketID(pid)
+	}
+	var wf *mq.Malformed
+	var s string
+	res := guarded(0, func() { wf = p.WellFormed(); s = p.String() })
+	if res.Panic != "" {
+		return nil
+	}
+	if f := judge("publish.zero-value", wf, s, pubPredicate(pubIn{Topic: topic, QoS: qos, PID: pid})); f != nil {
+		f.Detail = fmt.Sprintf("&Publish{} topic=%v qos=%d pid=%d: %s", topic, qos, pid, f.Detail)
+		return f
+	}
+	return nil
+}
+
 func runC17(x *core.Ctx) {
 	report := func(f *core.Finding, c core.Case, rerun func() *core.Finding) {
 		if f != nil {
@@ -501,6 +566,29 @@ func runC17(x *core.Ctx) {
 						report(c17PubContent(ti, alias, qos, pid, dec), core.Case{Harness: "c17.topic", Params: map[string]any{"ti": ti, "alias": int(alias), "qos": int(qos), "pid": int(pid), "decoded": dec}},
 							func() *core.Finding { return c17PubContent(ti, alias, qos, pid, dec) })
 					}
+				}
+			}
+		}
+	}
+	// packets whose first byte is not the constructor's: a SUBSCRIBE decoded
+	// from a frame with each of the 16 flag nibbles (ReadPacket keeps what it
+	// received) and the zero values &Subscribe{} / &Publish{} filled through
+	// the setters; the documented rules do not mention the header flags
+	if x.Mine() {
+		for nib := 0; nib < 16; nib++ {
+			for _, fi := range [][]filtIn{{{false, 1}}, {{false, 1}, {true, 0}}, {{false, 3}}, nil} {
+				nib, fi := nib, fi
+				x.Eval("other-flag-nibbles")
+				x.Distinct(core.Hash([]byte(fmt.Sprintf("nib%d%v", nib, fi))))
+				report(c17SubFlags(nib, fi), core.Case{Harness: "c17.flags", Params: map[string]any{"nibble": nib, "in": subIn{-1, fi}}}, func() *core.Finding { return c17SubFlags(nib, fi) })
+			}
+		}
+		for _, topic := range []bool{false, true} {
+			for qos := uint8(0); qos < 4; qos++ {
+				for _, pid := range []uint16{0, 9} {
+					topic, qos, pid := topic, qos, pid
+					x.Eval("zero-values")
+					report(c17ZeroPublish(topic, qos, pid), core.Case{Harness: "c17.zero", Params: map[string]any{"topic": topic, "qos": int(qos), "pid": int(pid)}}, func() *core.Finding { return c17ZeroPublish(topic, qos, pid) })
 				}
 			}
 		}
@@ -638,6 +726,18 @@ func replayC17(c core.Case) *core.Finding {
 		return c17Content(paramInt(c.Params, "ci"), paramInt(c.Params, "opt"), paramInt(c.Params, "mode"), dec)
 	case "c17.topic":
 		return c17PubContent(paramInt(c.Params, "ti"), uint16(paramInt(c.Params, "alias")), uint8(paramInt(c.Params, "qos")), uint16(paramInt(c.Params, "pid")), dec)
+	case "c17.flags":
+		var fs []filtIn
+		if fl, ok := m["Filters"].([]any); ok {
+			for _, e := range fl {
+				fm := e.(map[string]any)
+				fs = append(fs, filtIn{fm["Empty"].(bool), byte(fm["Opt"].(float64))})
+			}
+		}
+		return c17SubFlags(paramInt(c.Params, "nibble"), fs)
+	case "c17.zero":
+		tp, _ := c.Params["topic"].(bool)
+		return c17ZeroPublish(tp, uint8(paramInt(c.Params, "qos")), uint16(paramInt(c.Params, "pid")))
 	case "c17.history":
 		return c17History(paramInt(c.Params, "init"), c.Choices)
 	case "c17.pub":
